@@ -116,6 +116,26 @@ def step (st : State) (line : String) : State × String :=
     let kinds := ((kv ws "listeners").getD "tcp").splitOn "," |>.map fun k => if k == "uds" then Kind.uds else Kind.tcp
     let cfg : Cfg := { limit := limit, nIdx := workers }
     ({ cfg := cfg, s := ActixNet.Srv.init cfg kinds, started := true }, "ok")
+  | "bld" :: _ =>
+    -- a real `Server` built through `ServerBuilder` (calls in the given order), `n` clients held open:
+    -- the model's prediction is the state of the accept-loop model after `n` connects and one iteration
+    match (kv ws "workers").bind (·.toNat?), (kv ws "limit").bind (·.toNat?), (kv ws "n").bind (·.toNat?), kv ws "calls" with
+    | some w, some l, some n, some calls =>
+      let cs := calls.splitOn ","
+      let okCall (c : String) : Bool :=
+        c == "limit" || c == "workers" ||
+        (match c.splitOn ":" with
+         | ["blocking", k] | ["backlog", k] | ["timeout", k] => (k.toNat?.map (fun k => decide (1 ≤ k ∧ k ≤ 4096))).getD false
+         | _ => false)
+      if 1 ≤ w ∧ w ≤ 8 ∧ 1 ≤ l ∧ l ≤ 16 ∧ w * l ≤ n ∧ n ≤ 64 ∧ cs.all okCall ∧
+          (cs.filter (· == "limit")).length = 1 ∧ (cs.filter (· == "workers")).length = 1 then
+        let cfg : Cfg := { limit := l, nIdx := w }
+        let ops : List Op := (List.replicate n (Op.env (.connect 0))) ++ [Op.poll [.listener 0, .waker] []]
+        let s := ActixNet.Srv.run cfg (ActixNet.Srv.init cfg [.tcp]) ops
+        let per := (List.range w).map fun i => (s.wk i).queue.length + (s.wk i).inflight.length
+        (st, s!"max={per.foldl max 0} started={per.sum} served={n}")
+      else (st, "bad-op")
+    | _, _, _, _ => (st, "bad-op")
   | ["k-new", l] => match l.toNat? with
     | some _ => (st, toString Src.wcInit) | none => (st, "bad-op")
   | ["k-inc", v, l] => match v.toNat?, l.toNat? with
